@@ -399,9 +399,13 @@ K("C12/fen/record-tail", ["C12", "C08"], "board::verif_kani_d::c12_raw_from_str_
 LM = "verif_lemmas::"
 IMPL_EQ_REF = ISLEGAL + GEN_ALL + ["C01/gen/dispatch", "C07/calc-outcome", "C07/insufficient", "C16/attackers/white", "C16/attackers/black", "C16/check-queries/w", "C16/check-queries/b",
                                    "C11/try-from/accepts"] + ["C06/semilegal/%s/%s" % (_k, _c) for _s, _k in KINDS for _c in ("w", "b")]
-K("C18/spec/attack-validity", ["C18"], LM + "c18_attack_and_validity_commute_with_mirrors", [],
-  "rules: for all raw boards, attackers / validity / insufficient material commute with the colour mirror (ranks flipped, colours, side, rights, mark swapped) and with the left-right mirror; both mirrors are involutions",
+K("C18/spec/attacks", ["C18"], LM + "c18_attacks_commute_with_mirrors", [],
+  "rules: for all raw boards, the attackers of every square commute with the colour mirror (ranks flipped, colours swapped) and with the left-right mirror; both mirrors are involutions",
   assumes=IMPL_EQ_REF, timeout=3000, mem_gb=16)
+K("C18/spec/validity-colour-mirror", ["C18"], LM + "c18_validity_commutes_with_colour_mirror", [],
+  "rules: for all raw boards, validity and insufficient material are the same for the board and its colour mirror (side, rights, mark swapped)", assumes=IMPL_EQ_REF, timeout=3000, mem_gb=16)
+K("C18/spec/validity-left-right-mirror", ["C18"], LM + "c18_validity_commutes_with_left_right_mirror", [],
+  "rules: the same for the left-right mirror", assumes=IMPL_EQ_REF, timeout=3000, mem_gb=16)
 K("C18/spec/moves-colour-mirror", ["C18"], LM + "c18_moves_commute_with_colour_mirror", [],
   "rules: for all raw boards and all move tuples: well-formed / pseudo-legal / legal commute with the colour mirror and ref_apply(mirror) == mirror(ref_apply)", assumes=IMPL_EQ_REF, timeout=3000, mem_gb=16)
 K("C18/spec/moves-left-right-mirror", ["C18"], LM + "c18_moves_commute_with_left_right_mirror", [],
